@@ -111,6 +111,10 @@ UNITS["C16"] = [
 UNITS["C05"] = [
     dict(kind="structural", name="c05_sql_scoping", check="sql_actor_scoping", file="crates/klukai-agent/src/api/peer/mod.rs",
          trusted=["heuristic SQL reading (see c03_sql_scoping)"]),
+    dict(kind="verus", name="c05_send", template="specs/c05_send.vrs",
+         under_contract=["send_change_chunks"], vacuity=["send_change_chunks"],
+         assumptions=["ChunkedChanges is used through its contract only (proved on the real code in unit c08_chunker)",
+                      "`sender` is taken as &mut so that the ghost log of sent messages can be stated; eyre::bail!(..) -> return Err(..); Instant/Duration are stand-ins"]),
     dict(kind="verus", name="c05_serve", template="specs/c05_serve.vrs",
          under_contract=["frag_prefilter", "frag_empties_full", "frag_empties_partial", "frag_clip", "lemma_sql_selects_iff_overlap"],
          vacuity=["frag_prefilter", "frag_empties_full", "frag_empties_partial", "frag_clip"],
